@@ -426,6 +426,16 @@ RechunkAct ==
        \E g \in PickGrid(env[x].shape) :
          Push([a |-> "Rechunk", x |-> x, chunks |-> g], env[x])
 
+\* rechunk of a collection with unknown sizes onto a target that is itself unknown along those axes (what
+\* `y.rechunk(z.chunks)` passes for two data-dependent selections): one unknown block, one block more than the collection
+\* has, or the same number.  Values never change; a target whose block count differs cannot be honoured without the sizes,
+\* so the only conforming outcomes are "refused" or the unchanged values (C28).  The replayer builds the target from the
+\* collection's own chunks (known axes keep theirs).
+RechunkNanAct ==
+  /\ Allowed("RechunkNan") /\ CanStep
+  /\ \E x \in Pick({h \in Live : Rank(env[h]) >= 1 /\ Rank(env[h]) <= 2}) : \E m \in Pick({"one", "more", "same"}) :
+       Push([a |-> "RechunkNan", x |-> x, mode |-> m], env[x])
+
 RedOpOK(op, A) ==
   /\ (op = "prod" => Size(A.shape) <= 12 /\ \A k \in 1..Len(A.data) : IF A.kind = "f" THEN Abs(A.data[k][1]) <= 5 ELSE Abs(A.data[k]) <= 3)
   /\ (op \in {"nansum", "nanmin", "nanmax", "nanmean", "nanargmin", "nanargmax"} => A.kind = "f")
@@ -774,7 +784,7 @@ PersistAct ==
 
 Next ==
   \/ Start
-  \/ RechunkSpecAct \/ MapBlocksAct \/ BlockFirstAct \/ IndexNone \/ DiamondAct \/ ShareAct \/ MapBlocks2Act \/ JoinAct \/ EinsumAct \/ MapPlainAct \/ SetItemAct \/ MaskSetAct \/ OutUfuncAct \/ MaskSelectAct \/ UnknownAct \/ ComputeChunkSizesAct \/ RandomAct \/ AdvIndexAct \/ DiagonalAct \/ StackMismatchAct \/ OverlapAct \/ PersistAct
+  \/ RechunkSpecAct \/ MapBlocksAct \/ BlockFirstAct \/ IndexNone \/ DiamondAct \/ ShareAct \/ RechunkNanAct \/ MapBlocks2Act \/ JoinAct \/ EinsumAct \/ MapPlainAct \/ SetItemAct \/ MaskSetAct \/ OutUfuncAct \/ MaskSelectAct \/ UnknownAct \/ ComputeChunkSizesAct \/ RandomAct \/ AdvIndexAct \/ DiagonalAct \/ StackMismatchAct \/ OverlapAct \/ PersistAct
   \/ Index \/ Elemwise \/ UnaryAct \/ AsTypeAct \/ TransposeAct \/ ReshapeAct \/ ExpandSqueeze \/ FlipRoll
   \/ ConcatStack \/ RechunkAct \/ ReduceAct \/ ArgReduce \/ CumulativeAct \/ DiffAct \/ WhereAct \/ TakeAct
   \/ BroadcastAct \/ WindowAct \/ WindowReduce \/ DotAct \/ PadRepeat \/ TopKAct
